@@ -19,8 +19,7 @@ def deasync(s):
     return s
 
 
-def build(ctx):
-    p = bk.parts(ctx)
+def fx_parts(ctx):
     rl = Src(ctx, 'fx/io/rate_loader.rs').cut_tests()
     rl.cut_after('pub mod testlib {')
     rl.standard()
@@ -54,9 +53,16 @@ def build(ctx):
           + "pub type Error = String;\npub use self::rate_loader::*;\nuse crate::fx::DailyRate;\nuse crate::util::basic::SError;\n"
           + rc.text() + rr.text())
     fx = mod('fx', mod('io', io) + mod('model', model.text(), '') + "pub use self::model::*;\n")
+    return dict(fx=fx, txl=txl.text())
+
+
+def build(ctx):
+    p = bk.parts(ctx)
+    f = fx_parts(ctx)
+    fx, txl_text = f['fx'], f['txl']
     stubs = open(os.path.join(os.path.dirname(os.path.dirname(os.path.abspath(__file__))), 'shim', 'util_stubs.rs')).read()
     return (shim('base', 'std').replace('verus! {\n/// Trusted contracts for std', MACROS + 'verus! {\n/// Trusted contracts for std', 1) + "verus! {\n"
-            + bk.assemble(p, extra_util=stubs, extra_portfolio=mod('io', mod('tx_loader', txl.text())), extra_top=fx)
+            + bk.assemble(p, extra_util=stubs, extra_portfolio=mod('io', mod('tx_loader', txl_text)), extra_top=fx)
             + "} // verus!\nfn main() {}\n")
 
 
